@@ -32,12 +32,16 @@ def check(run):
     ebehs, est = ([], {})
     if not run.violations:
         ebehs, est = xc.engine_phase(run, 40 if quick else 300)
+    # the engine pipeline on a chain with a decaying award (mining rounds after a consensus-requested truncation must pay the
+    # award of the height they produce at; pushed chains carry the award of each block's own height)
+    if not run.violations:
+        xc.engine_phase(run, 15 if quick else 250, ops=34, mc=False, tag="d", extra_consts=decay)
     # network level: several real engines exchange the blocks they mine; every produced block must be accepted by the
     # other nodes and lead them to the producer's state (Net.tla)
     nst = {}
     if not run.violations:
         run.tlc_mc("Net.tla", "MC_Net.cfg" if quick else "MC_Net_thorough.cfg", timeout=3000)
-        _, nst = xc.net_phase(run, 20 if quick else 250, mc=False)
+        _, nst = xc.net_phase(run, 15 if quick else 250, mc=False)
     behs = [b for _, bs, _ in groups for b in bs]
     st = xc.stats(behs)
     ops = [o for b in behs for o in b]
